@@ -37,7 +37,7 @@ def make_script(rng, name, kind=None, plan=None, nkeys=None, length=None):
                 lines.append(rng.choice([f"tfindentryremove {k} id {k}", f"tinsertunique {k} {stamp} {v}",
                                          f"tremovereinsert {k} id {k} {stamp} {v}", f"tentryinsert {k} {stamp} {v}"]))
             elif phase == "lookup":
-                lines.append(rng.choice([f"tfind {k} {pred(k)}", f"tfind {k} {pred()}", f"tfindmut {k} {pred(k)} {v}", f"titerhash {k}", f"tentrydrop {k}"]))
+                lines.append(rng.choice([f"tfind {k} {pred(k)}", f"tfind {k} {pred()}", f"tfindmut {k} {pred(k)} {v}", f"titerhash {k}", f"tentrydrop {k}", "tclone"]))
             else:
                 c = rng.choice(["tretain", "textractif", "tdrain", "tclear", "treserve", "ttryreserve", "tshrinkto", "tshrinktofit",
                                 "tgetmanymut", "tgetmanymut", "titer", "tlen", "tcapacity", "tallocsize", "tdrop", "twithcap", "tintoiter"])
@@ -92,7 +92,7 @@ def make_run_script(rng, name, kind=None):
         rng.shuffle(keys)
         for k in keys[: rng.choice([6, 12, n + 4])]:
             c = rng.choice(["tfind", "tfind", "tfindmut", "tentryorinsert", "tentryinsert", "tentrydrop", "titerhash", "titerhash",
-                            "tremovereinsert", "tgetmanymut", "tinsertunique", "tfindentryremove", "titer", "tlen"])
+                            "tremovereinsert", "tgetmanymut", "tinsertunique", "tfindentryremove", "titer", "tlen", "tclone"])
             v = rng.randrange(100)
             if c in ("tfind",):
                 lines.append(f"tfind {k} id {k}")
@@ -270,6 +270,11 @@ def make_removal_script(rng, name, kind=None):
         for k in range(n):
             if k not in live:
                 lines.append(f"tinsertunique {k} {st()} {rng.randrange(100)}"); live.add(k)
+        if rng.random() < 0.25:
+            # everything removed one by one first: an empty table that still holds removed-slot markers
+            for k in sorted(live):
+                lines.append(f"tfindentryremove {k} id {k}")
+            live = set()
         c = rng.choice(["tretain", "tretain", "textractif", "textractif", "tdrain"])
         lv = sorted(live)
         mode = rng.choice(["none", "one", "some", "all"])
